@@ -595,7 +595,7 @@ def main(tier):
                 f.write(json.dumps(row) + '\n')
         env = {'C10_ALT': alt}
         lex_inv = ('TypeOK', 'AtDone', 'RunAgrees')
-        bld_inv = ('Theorem', 'Emit')
+        bld_inv = ('Theorem', 'TheoremImpl', 'Emit')
         if tier == 'quick':
             run_model(chk, tmpd, 'MC_C10_lex', 'lex2', {'MaxLen': 2, 'Alphabet': _set(FULL)}, lex_inv)
             run_model(chk, tmpd, 'MC_C10_build', 'build3', {'MaxLen': 3, 'MinEmit': 1, 'Alphabet': _set(FULL)},
